@@ -81,10 +81,13 @@ Next ==
     \/ \E f \in Bools : PrepPush(f)
     \/ \E f \in Bools : PrepReserve(20, f)
     \/ \E f \in Bools : PrepExtend(5, f)
+    \/ PrepReserveHuge
     \/ PrepCommit
     \/ PrepDrop("return")
     \/ \E rv \in Bools, h \in {0, 3}, n \in {2, 5} : IterMut([sz |-> 8, al |-> 8], rv, h, n)
     \/ \E c \in Bools : FmtMut(<<3, 20>>, c)
+    \/ \E h \in {0, 3}, n \in {2, 5} : IterGrow([sz |-> 8, al |-> 8], h, n)
+    \/ \E c \in Bools : FmtGrow(<<3, 20>>, c)
     \/ \E id \in LiveIds, at \in {1, 8, 16} : Split(id, at)
     \/ ScopeTwice(<<L(40, 32), L(24, 4)>>)
     \/ \E tw \in {t \in TwFams : t.name \in McTw}, o \in Bools, m \in Bools, i \in Bools : AllocTryWith(tw, o, m, i, FALSE)
@@ -104,6 +107,7 @@ PrepFailNext ==
     \/ \E rv \in Bools : EnterPrep([sz |-> 8, al |-> 8], rv, 1, FALSE)
     \/ \E f \in Bools : PrepPush(f)
     \/ \E f \in Bools : PrepReserve(20, f)
+    \/ PrepReserveHuge
     \/ PrepCommit
     \/ PrepDrop("return")
 PrepFailSpec == Init /\ [][PrepFailNext]_vars
@@ -172,16 +176,18 @@ SimStep ==
     \/ (G("aligned") /\ (WithSettings(R({1, 2, 4, 8, 16}), TRUE) \/ WithSettings(R({1, 2, 4, 8, 16}), cfg.ga)))
     \/ (G("prep") /\ EnterPrep(R(SimElems), R(Bools), R({0, 0, 1, 5, 20}), FALSE))
     \/ (G("prep") /\ CanFail /\ EnterPrep(R(SimElems), R(Bools), R({5, 20, 200}), TRUE))
-    \/ (G("prep") /\ EnterPrepG([sz |-> 1, al |-> 1], FALSE, R({0, 3, 20}), FALSE, TRUE))
+    \/ (G("prep") /\ EnterPrepG([sz |-> 1, al |-> 1], FALSE, R({0, 3, 20}), FALSE, TRUE, FALSE))
     \/ (G("prep") /\ (PrepPush(FALSE) \/ (InPrep /\ PrepPush(FALSE)) \/ (InPrep /\ PrepPush(FALSE))))
     \/ (G("prep") /\ CanFail /\ PrepPush(TRUE))
     \/ (G("prep") /\ PrepReserve(R({1, 3, 10, 40, 300}), FALSE))
     \/ (G("prep") /\ CanFail /\ PrepReserve(R({10, 40, 300, 2000}), TRUE))
     \/ (G("prep") /\ PrepExtend(R({1, 2, 3, 7, 20}), FALSE))
     \/ (G("prep") /\ CanFail /\ PrepExtend(R({7, 20, 35}), TRUE))
+    \/ (G("prep") /\ G("fail") /\ PrepReserveHuge)
     \* boundary capacities: exactly what the free space of the current chunk holds, one less, one more
     \/ (G("prep") /\ cur # 0 /\ \E e \in {R(SimElems)} :
-            LET n == ChunkRemaining(chunks[cur]) \div e.sz IN \E d \in {R({0 - 1, 0, 0, 1})} : n + d >= 1 /\ EnterPrep(e, R(Bools), n + d, FALSE))
+            LET n == ChunkRemaining(chunks[cur]) \div e.sz IN \E d \in {R({0 - 1, 0, 0, 1})} : n + d >= 1 /\ EnterPrepG(e, R(Bools), n + d, FALSE, FALSE, R(Bools)))
+    \/ (G("prep") /\ EnterPrepG(R(SimElems), R(Bools), R({1, 3, 9}), FALSE, FALSE, TRUE))
     \/ (G("prep") /\ InPrep /\ cur # 0 /\ LET f == frames[Depth]
                                               n == ChunkRemaining(chunks[cur]) \div f.esz - f.len
                                           IN \E d \in {R({0 - 1, 0, 0, 1})} : n + d >= 1 /\ f.len + n + d <= 600 /\ PrepExtend(n + d, FALSE))
@@ -215,6 +221,8 @@ SimStep ==
     \/ (G("vec") /\ VecIds # {} /\ \E id \in {R(VecIds)} : blocks[id].vlen > 0 /\ \E n \in {R(0..(blocks[id].vlen - 1))} : VecTruncate(id, n))
     \/ (G("vec") /\ VecIds # {} /\ VecDrop(R(VecIds)))
     \/ (G("vec") /\ VecIds # {} /\ VecInto(R(VecIds)))
+    \/ (G("vec") /\ IterGrow(R(VecElems), R({0, 0, 2, 5, 30}), R({0, 1, 3, 5, 9, 17})))
+    \/ (G("vec") /\ FmtGrow(R({<<1, 1>>, <<3, 20>>, <<5, 5, 5>>, <<40, 1, 300>>, <<8, 600>>}), R(Bools)))
     \/ (G("fail") /\ CanFail /\ Alloc(R(Layouts), FALSE, TRUE))
     \/ (G("fail") /\ CanFail /\ Reserve(R({600, 3000}), TRUE))
     \/ (G("fail") /\ CanFail /\ LiveIds # {} /\ \E id \in {R(LiveIds)} :
@@ -248,4 +256,23 @@ QuickCfgs == {c \in AllCfgs : QuickCombo(c)}
 B2N(b) == IF b THEN 1 ELSE 0
 ComboIndex(c) == 16 * B2N(c.up) + 8 * B2N(c.ga) + 4 * B2N(c.dealloc) + 2 * B2N(c.shrinks) + B2N(c.mcs = 512)
 FullCfgs == QuickCfgs \cup {c \in AllCfgs : c.hs = <<32, 48, 128>>[(ComboIndex(c) % 3) + 1]}
+\* ---- boundary grid: EVERY behaviour "constructor ; [one allocation that leaves a residue] ; one request sized to the free space of
+\* the current chunk exactly / one less / one more ; [finalise]" -- emitted by model checking with the history in the state
+GridCfgs == {c \in QuickCfgs : c.ma \in {1, 16} /\ c.extra = 0}
+GridCtors == {[k |-> "new", n |-> 0, al |-> 1], [k |-> "with_size", n |-> 200, al |-> 1]}
+GridPre == {[sz |-> 1, al |-> 1], [sz |-> 8, al |-> 8], [sz |-> 16, al |-> 16], [sz |-> 24, al |-> 8], [sz |-> 40, al |-> 32]}
+GridNext ==
+    \/ nops = 0 /\ \E l \in GridPre \cup {[sz |-> 0, al |-> 1]} : Alloc(l, FALSE, FALSE)
+    \/ nops = 1 /\ cur # 0 /\
+         \/ \E e \in SimElems, rv \in Bools, d \in {0 - 1, 0, 1}, init \in Bools :
+                LET n == ChunkRemaining(chunks[cur]) \div e.sz IN n + d >= 1 /\ EnterPrepG(e, rv, n + d, FALSE, FALSE, init)
+         \/ \E a \in {1, 8, 32}, d \in {0 - 1, 0, 1} :
+                LET n == ChunkRemaining(chunks[cur]) + d IN n >= 0 /\ Alloc([sz |-> n, al |-> a], FALSE, FALSE)
+         \/ \E e \in VecElems, d \in {0 - 1, 0, 1} :
+                LET n == ChunkRemaining(chunks[cur]) \div e.sz IN n + d >= 1 /\ VecNew(e, n + d, "none", FALSE)
+    \/ nops = 2 /\
+         \/ InPrep /\ PrepCommit
+         \/ \E id \in VecIds : VecExtend(id, 1, "push", FALSE)
+         \/ ~InPrep /\ VecIds = {} /\ Alloc([sz |-> 8, al |-> 8], FALSE, FALSE)
+GridSpec == Init /\ [][GridNext]_vars
 =============================================================================
